@@ -11,6 +11,7 @@ def run(F, G, tier, seed):
     ownership.run_stable(chk, F)
     ownership.run_edge(chk, F)
     instances.run(chk, F)
+    instances.run_arity_sync(chk, F)
     return chk.finish(
         "Decides the registration and ownership clauses of C08 from the code shape: every object registered as the "
         "user data of a symbol is the object whose uid receives that symbol and lives in a node-stable container; "
